@@ -15,3 +15,19 @@ type Review struct {
 	AuthorID string
 	Billing  bool
 }
+
+// Inner scopes reusing bound names in the second autobind package.
+func Reconcile(Invoice []string) (Review int) {
+	type invoiceRow = struct{ N int }
+	n := 0
+	{
+		type Invoice struct{ LegacyNumber int }
+		type Review struct{ Legacy bool }
+		i, r := Invoice{LegacyNumber: 1}, Review{Legacy: true}
+		if r.Legacy {
+			n = i.LegacyNumber
+		}
+	}
+	Review = n
+	return Review + len(Invoice) + invoiceRow{N: 1}.N
+}
